@@ -63,20 +63,50 @@ theorem unionLoop_keeps (cfg : Cfg) (objs : List ObjT) (g : GoT) (n : String) (b
         · exact hk
         · exact ih m' hk
 
+theorem unionLoopAll_keeps (cfg : Cfg) (objs : List ObjT) (g : GoT) (n : String) (b : GoT) :
+    ∀ (ms : List String) (m : Meta) (pend : Option String), m.get n = some b →
+      (unionLoopAll cfg objs g m pend ms).1.get n = some b := by
+  intro ms
+  induction ms with
+  | nil => intro m pend h; exact h
+  | cons mem rest ih =>
+    intro m pend h
+    unfold unionLoopAll
+    split
+    · exact ih m pend h
+    · rename_i o _
+      have hk := metaCheck_keeps cfg m o g n b h
+      rcases hmc : metaCheck cfg m o g with ⟨m', r⟩
+      rw [hmc] at hk
+      cases r with
+      | none => exact ih m' _ hk
+      | some b' =>
+        simp only
+        split
+        · exact hk
+        · exact ih m' pend hk
+
 /-- **C08_binding_stable.**  Whatever value reaches whatever position, an object type that is bound to a
 Go type stays bound to that Go type: the binding is decided once (by the first value that gets there). -/
 theorem C08_binding_stable (cfg : Cfg) (objs : List ObjT) (order : List String) (m : Meta) (p : Pos) (g : GoT)
     (n : String) (b : GoT) (h : m.get n = some b) : (step cfg objs order m p g).1.get n = some b := by
   cases p with
   | obj t => exact get_set_bound m t n g b h
-  | union ms => exact unionLoop_keeps cfg objs g n b ms m h
+  | union ms =>
+    simp only [step]
+    split
+    · exact unionLoop_keeps cfg objs g n b ms m h
+    · exact unionLoopAll_keeps cfg objs g n b ms m none h
   | iface =>
-    show (match getReflectType m order g with
-          | some t => (assureType m t g, Out.asType t)
-          | none => (m, Out.unbound)).1.get n = some b
-    cases getReflectType m order g with
-    | some t => exact get_set_bound m t n g b h
-    | none => exact h
+    simp only [step]
+    split
+    · cases getReflectType m order g with
+      | some t => exact get_set_bound m t n g b h
+      | none => exact h
+    · unfold getReflectTypeLazy
+      cases order.find? (takes cfg objs m g) with
+      | some t => exact get_set_bound m t n g b h
+      | none => exact h
 
 /-- a state in which every member of the union is bound to its own Go type -/
 def Warm (m : Meta) (goOf : String → GoT) (ms : List String) : Prop := ∀ mem ∈ ms, m.get mem = some (goOf mem)
